@@ -212,8 +212,13 @@ def _init_worker(modname):
 
 
 def _run_one(spec):
+    t0 = time.time()
     try:
-        return ("ok", _MOD.run_job(spec))
+        r = _MOD.run_job(spec)
+        if isinstance(r, dict):
+            r["job_wall"] = time.time() - t0
+            r["job_spec"] = repr(spec)
+        return ("ok", r)
     except BaseException:
         return ("err", "job %r\n%s" % (spec, traceback.format_exc()))
 
@@ -277,7 +282,14 @@ def main_check(mod, tier, seed):
     # determinism: the first job is executed a second time, in this process, and must give the
     # same observation digest and the same counts
     if specs and not os.environ.get("KMC_NO_DETCHECK"):
-        idx = getattr(mod, "DETCHECK_JOB", 0)
+        # the job that is re-run: the longest one that took at most 20 s in the pool (a thorough-tier job can take many minutes,
+        # and the re-run is serial); if every job is longer, the shortest one
+        walls = {r.get("job_spec"): r.get("job_wall", 0.0) for r in results}
+        short = [i for i, sp in enumerate(specs) if walls.get(repr(sp), 0.0) <= 20.0]
+        if short:
+            idx = max(short, key=lambda i: (walls.get(repr(specs[i]), 0.0), -i))
+        else:
+            idx = min(range(len(specs)), key=lambda i: (walls.get(repr(specs[i]), 0.0), i))
         _init_worker(modname)
         again = _run_one(specs[idx])
         if again[0] != "ok":
